@@ -24,7 +24,7 @@ func init() {
 		Rule:             "ALL type graphs over a root (5 root forms) and 2 user types with the full body alphabet (scalar, alias, or-shortcut, array, allOf parent at the type's root / on an array element / on a property value, additionalProperties type, key shortcut, objects with 1-2 slots each one of {scalar, required ref, optional ref, array item, or-shortcut, nested object}) and over 3 (thorough: 3 with two-slot objects / 4 with one-slot) user types with the one-slot alphabet, x EVERY subset of types left un-added; plus structured families up to 6 types (rings, chains into rings, diamonds, rings with one optional/array/or-terminating edge at each position). Oracles: typegraph reference (missing-name set, referenced-name set, least-fixpoint inhabitation), termination of Check/Validate/Example on every accepted graph (worker death or 40 s without progress = violation). Non-trivial = distinct graph with >= 1 reference edge.",
 		Run:              run,
 		Replay:           replay,
-		QuickBudget:      80 * time.Second,
+		QuickBudget:      200 * time.Second,
 		ThoroughBudget:   14 * time.Minute,
 		CrashIsViolation: true,
 		Assumptions: []string{
